@@ -33,7 +33,7 @@ class LinkNative(Contract):
     symbolic = False
     has_native = True
     props = ("C20",)
-    bounded_scope = "large-loop ground TEM/FEM pairs (two loops, ten receivers each; copy of either side, masked copy into another workspace, shared-parameter edit; in the creating session and after a re-open) + 4 EM receiver/transmitter class pairs + tipper receivers/base stations + DC potential/current electrodes; link from either side; edit a shared parameter through either side with and without having read the partner first; re-link to a second partner; re-open and fetch one side only; plain copy; linking by a metadata document with identifiers as text (plain and braced); tipper copies from either side inside the same workspace; airborne parameters switched between a number and a data channel through alternating sides; DC pairs re-linked elsewhere from the other side and linked again"
+    bounded_scope = "large-loop ground TEM/FEM pairs (two loops, ten receivers each; copy of either side, masked copy into another workspace, shared-parameter edit; in the creating session and after a re-open) + 4 EM receiver/transmitter class pairs + tipper receivers/base stations + DC potential/current electrodes; link from either side; edit a shared parameter through either side with and without having read the partner first; re-link to a second partner; re-open and fetch one side only; plain copy; linking by a metadata document with identifiers as text (plain and braced); tipper copies from either side inside the same workspace; a tipper base handed to a second receivers object; airborne parameters switched between a number and a data channel through alternating sides; DC pairs re-linked elsewhere from the other side and linked again"
 
     def native_cases(self, tier, rng):
         for rx, tx in EM_PAIRS:
@@ -48,7 +48,7 @@ class LinkNative(Contract):
         for direction in ("rx=>tx", "tx=>rx"):
             for scenario in ("basic", "relink", "reopen", "relink-back"):
                 yield {"family": "dc", "direction": direction, "scenario": scenario}
-        for scenario in ("basic", "reopen", "copy-receivers", "copy-base-stations"):
+        for scenario in ("basic", "reopen", "copy-receivers", "copy-base-stations", "relink-base-to-second-receivers"):
             yield {"family": "tipper", "scenario": scenario}
         # large-loop ground surveys: two loops, ten receivers each, tied by their "Transmitter ID" data
         for kind in ("TEM", "FEM"):
@@ -392,6 +392,19 @@ class LinkNative(Contract):
             if list(bs.channels) != [30.0, 45.0]:
                 return f"channels edited through the receivers are {bs.channels} on the base stations ({case})"
             uids = (rx.uid, bs.uid)
+            if case["scenario"] == "relink-base-to-second-receivers":
+                # the base (which has resolved its first receivers above) is handed to a second receivers object
+                rx2 = TipperReceivers.create(ws, vertices=_verts(off=7.0), name="rx2")
+                rx2.base_stations = bs
+                md = bs.metadata["EM Dataset"]
+                if md.get("Receivers") != rx2.uid or md.get("Base stations") != bs.uid or rx2.metadata["EM Dataset"].get("Base stations") != bs.uid:
+                    return f"after linking second receivers to the base the recorded identifiers are Receivers={md.get('Receivers')} Base stations={md.get('Base stations')} ({case})"
+                if rx2.base_stations is not bs or bs.receivers is not rx2:
+                    return f"after rx2.base_stations = bs the base resolves '{getattr(bs.receivers, 'name', None)}' as its receivers although both entities record rx2 ({case})"
+                rx2.channels = [5.0]
+                if list(bs.channels) != [5.0]:
+                    return f"channels edited through the second receivers are {bs.channels} on the base stations ({case})"
+                return None
             if case["scenario"].startswith("copy"):
                 before = (dict(rx.metadata["EM Dataset"]), dict(bs.metadata["EM Dataset"]))
                 if case["scenario"] == "copy-receivers":
@@ -507,6 +520,7 @@ class _LinkSet(Contract):
     key = ""
     self_cls = "AirborneTEMReceivers"
     partner_cls = "AirborneTEMTransmitters"
+    back = None
 
     def setup(self, ctx):
         from geoh5py import objects
@@ -534,7 +548,7 @@ class _LinkSet(Contract):
         ctx.oblige("the-link-is-recorded-in-the-shared-metadata", len(edits) == 1 and isinstance(edits[0]["entries"], PDict) and edits[0]["entries"].items.get(self.key) is e["new"].attrs["uid"])
         ctx.oblige("the-cached-partner-is-the-new-one-when-the-metadata-is-propagated", len(edits) == 1 and edits[0]["cached"] is e["new"])
         ctx.oblige("the-getter-returns-the-new-partner-afterwards", e["me"].attrs.get("_" + self.field) is e["new"])
-        back = "_receivers" if self.field == "transmitters" else "_transmitters"
+        back = self.back or ("_receivers" if self.field == "transmitters" else "_transmitters")
         ctx.oblige("the-new-partner-resolves-this-entity-from-now-on", e["new"].attrs.get(back) is e["me"],
                    note=f"the partner's cached {back[1:]} still names whoever it was linked to before: its getter disagrees with the identifiers just recorded on both entities")
 
@@ -954,3 +968,129 @@ class ElectrodeMetadataRefusal(Contract):
 
 
 CONTRACTS = CONTRACTS + [ElectrodeMetadataRefusal]
+
+
+class CurrentLinksPotential(PotentialLinksCurrent):
+    """CurrentElectrode.potential_electrodes = rx: the other linking direction; same obligations with
+    the roles swapped (both entities record both identifiers, both cache each other)."""
+    target = "geoh5py/objects/surveys/direct_current.py::CurrentElectrode.potential_electrodes.fset"
+
+    def setup(self, ctx):
+        import uuid
+
+        from geoh5py.objects import CurrentElectrode, PotentialElectrode
+
+        me = Opaque("self", cls=CurrentElectrode)
+        rx = Opaque("rx", cls=PotentialElectrode)
+        other = Opaque("other-rx", cls=PotentialElectrode)
+        for o in (me, rx, other):
+            o.distinct = True
+        me.attrs["uid"], rx.attrs["uid"] = uuid.UUID(int=2), uuid.UUID(int=1)
+        me.attrs["_potential_electrodes"] = {"first-link": None, "same-partner-cached-but-re-linked-elsewhere": rx, "other-partner-cached": other}[ctx.case]
+        rx.attrs["_current_electrodes"] = None if ctx.case == "first-link" else Opaque("someone-else")
+        me.attrs["ab_cell_id"] = None
+        rx.attrs["ab_cell_id"] = None
+        ctx.env.update(me=rx, tx=me)  # the parent's post speaks of `me` (potential) and `tx` (current)
+        return [me, rx], {}
+
+
+class _PartnerGetter(Contract):
+    """Electrode partner getters: a cached partner is answered without a lookup; otherwise the
+    identifier recorded under the partner's key of the entity's own metadata is looked up in the
+    entity's workspace, an entity of the partner class is cached and returned, anything else answers
+    None -- the getter never writes (no persist event) and never caches an entity of another class."""
+    props = ("C20",)
+    lenient = True
+    field = ""
+    key = ""
+    self_cls = ""
+    partner_cls = ""
+
+    def cases(self):
+        return ["cached", "recorded-and-found", "recorded-but-another-class", "recorded-but-unknown", "no-record", "record-without-the-key"]
+
+    def setup(self, ctx):
+        import uuid
+
+        from geoh5py import objects
+
+        me = Opaque("self", cls=getattr(objects, self.self_cls))
+        partner = Opaque("partner", cls=getattr(objects, self.partner_cls))
+        stranger = Opaque("stranger", cls=objects.Points)
+        cached = Opaque("cached-partner", cls=getattr(objects, self.partner_cls))
+        for o in (me, partner, stranger, cached):
+            o.distinct = True
+        pid = uuid.UUID(int=7)
+        me.attrs["_" + self.field] = cached if ctx.case == "cached" else None
+        other_key = "Potential Electrodes" if self.key == "Current Electrodes" else "Current Electrodes"
+        md = {"no-record": None, "record-without-the-key": PDict({other_key: uuid.UUID(int=9)})}.get(ctx.case, PDict({self.key: pid, other_key: uuid.UUID(int=9)}))
+        me.attrs["metadata"] = md
+        ws = Opaque("workspace")
+        ge = Opaque("get_entity")
+        found = {"recorded-and-found": partner, "recorded-but-another-class": stranger}.get(ctx.case)
+
+        def lookup(I, a, kw):
+            I.event("lookup", uid=a[0])
+            return PList([found if a[0] == pid else None])
+
+        ge.maybe_method = lookup
+        ws.attrs["get_entity"] = ge
+        ua = Opaque("update_attribute")
+        ua.maybe_method = lambda I, a, kw: I.event("persist")
+        ws.attrs["update_attribute"] = ua
+        me.attrs["workspace"] = ws
+        ctx.env.update(me=me, partner=partner, cached=cached, pid=pid)
+        return [me], {}
+
+    def post(self, ctx, result):
+        e = ctx.env
+        lookups = [p for k, p in ctx.path.events if k == "lookup"]
+        others = [(k, p) for k, p in ctx.path.events if k != "lookup" and not (k == "setattr" and p["target"] == "self" and p["name"] == "_" + self.field)]
+        ctx.oblige("reading-the-partner-writes-nothing-but-its-own-cache", not others, note=f"events {others}")
+        if ctx.case == "cached":
+            ctx.oblige("a-cached-partner-is-answered-as-is", result is e["cached"] and not lookups)
+        elif ctx.case == "recorded-and-found":
+            ctx.oblige("the-recorded-identifier-is-resolved-in-the-entity's-workspace", len(lookups) >= 1 and all(l["uid"] == e["pid"] for l in lookups))
+            ctx.oblige("the-partner-found-is-returned-and-cached", result is e["partner"] and e["me"].attrs.get("_" + self.field) is e["partner"])
+        else:
+            ctx.oblige("no-partner-is-answered-when-none-of-the-partner-class-is-recorded", result is None and e["me"].attrs.get("_" + self.field) is None,
+                       note=f"answered {result!r}")
+
+    def post_raises(self, ctx, sig):
+        ctx.oblige("reading-the-partner-does-not-raise", False, kind="post-exc", note=f"{sig.exc_class.__name__} at {sig.origin}")
+
+
+class PotentialResolvesCurrent(_PartnerGetter):
+    target = "geoh5py/objects/surveys/direct_current.py::PotentialElectrode.current_electrodes.fget"
+    field, key = "current_electrodes", "Current Electrodes"
+    self_cls, partner_cls = "PotentialElectrode", "CurrentElectrode"
+
+
+class CurrentResolvesPotential(_PartnerGetter):
+    target = "geoh5py/objects/surveys/direct_current.py::CurrentElectrode.potential_electrodes.fget"
+    field, key = "potential_electrodes", "Potential Electrodes"
+    self_cls, partner_cls = "CurrentElectrode", "PotentialElectrode"
+
+
+CONTRACTS = CONTRACTS + [CurrentLinksPotential, PotentialResolvesCurrent, CurrentResolvesPotential]
+
+
+class BaseStationsSet(_LinkSet):
+    """TipperSurvey.base_stations = base (set on the receivers): same obligations as the EM link
+    setters -- the identifier goes into the shared metadata, the cache is the new base by the time
+    the metadata is propagated, and the base resolves these receivers from now on."""
+    target = "geoh5py/objects/surveys/electromagnetics/tipper.py::TipperSurvey.base_stations.fset"
+    field, key = "base_stations", "Base stations"
+    self_cls, partner_cls = "TipperReceivers", "TipperBaseStations"
+    back = "_receivers"
+
+    def setup(self, ctx):
+        args, kw = super().setup(ctx)
+        me, new = args
+        me.attrs["n_vertices"] = 4
+        new.attrs["n_vertices"] = 1
+        new.attrs["_receivers"] = ctx.env["old"].__class__("someone-else")
+        return args, kw
+
+
+CONTRACTS = CONTRACTS + [BaseStationsSet]
